@@ -498,6 +498,41 @@ func runCore(seed uint64, n int, out *Out) {
 		nOps := 20 + r.Intn(maxOps)
 		halted := false
 		for opi := 0; opi < nOps && !halted; opi++ {
+			// a parameter change in mid-history (governance MsgUpdateParams of bet / house / orderbook): one or two
+			// parameters move, in either direction, within the accepted ranges
+			if opi > 3 && r.Chance(3) {
+				switch r.Intn(6) {
+				case 0:
+					hp.MaxWithdrawalCount = uint64(r.Range(1, 3))
+				case 1:
+					bp.BatchSettlementCount = uint32(r.Pick([]int64{1, 2, 3, 5, 1000}))
+					op.BatchSettlementCount = uint64(r.Pick([]int64{1, 2, 3, 100}))
+				case 2:
+					op.RequeueThreshold = uint64(r.Pick([]int64{0, 0, 1, 5, 29, 1000}))
+				case 3:
+					op.MaxOrderBookParticipations = uint64(r.Pick([]int64{1, 2, 4, 8, 100}))
+				case 4:
+					bp.Constraints.MinAmount = sdkmath.NewInt(r.Pick([]int64{2, 2, 5, 10, 50}))
+					bp.Constraints.Fee = sdkmath.NewInt(r.Pick([]int64{0, 0, 1, 1, 2}))
+					if bp.Constraints.Fee.GTE(bp.Constraints.MinAmount) {
+						bp.Constraints.Fee = bp.Constraints.MinAmount.SubRaw(1)
+					}
+				case 5:
+					if !small {
+						hp.MinDeposit = sdkmath.NewInt(r.Pick([]int64{2, 10, 100}))
+						hp.HouseParticipationFee = sdkmath.LegacyMustNewDecFromStr([]string{"0", "0.1", "0.01", "0.05", "0.333333333333333333"}[r.Intn(5)])
+					}
+				}
+				e.App.BetKeeper.SetParams(e.Ctx, bp)
+				e.App.HouseKeeper.SetParams(e.Ctx, hp)
+				e.App.OrderbookKeeper.SetParams(e.Ctx, op)
+				out.Op("PARAMS %d %s %s %s %s %d %d %d %d", bp.BatchSettlementCount, bp.Constraints.MinAmount, bp.Constraints.Fee, hp.MinDeposit,
+					decRaw(hp.HouseParticipationFee), hp.MaxWithdrawalCount, op.MaxOrderBookParticipations, op.BatchSettlementCount, op.RequeueThreshold)
+				out.Count("op.paramChange")
+				coreReset(h)
+				noteBatchSizes(e)
+				continue
+			}
 			c := r.Intn(100)
 			if small && len(markets) > 0 {
 				if c < 6 {
